@@ -126,6 +126,12 @@ def gen_case(r, kind):
         gl.append(V.dyadic(r, -3, 3, bits=5))
     c["events"] = ev
     c["gauss"] = gl
+    if kind in ("free", "langevin", "reflect") and r.random() < 0.3 and len(ev) > 8:
+        # the engine changes its time step in the middle of the session (update_engine_parameters)
+        jj = r.randint(3, len(ev) - 3)
+        if not ev[jj]["boundary"]:
+            c["dt_change"] = (jj, c["dt"] * r.choice([0.5, 2.0, 0.75]))
+            return c
     if kind == "free" and c["tsf"] == 1 and r.random() < 0.6 and len(ev) > 6:
         # the engine declares a new initial step in the middle of the session: the number of steps since the last update no longer
         # equals the factor and update_extended_Lagrangian() raises its factor error (the update is skipped, the bias force stays on the atoms)
@@ -274,11 +280,9 @@ def step_origin(c, j):
     return ss[1] if (ss and j >= ss[0]) else c.get("start_step", 0)
 
 
-def scenario(c, tag):
-    auto = c.get("auto_state") and c.get("resume_at") is not None
-    L = ["echo CASE %s" % tag, "natoms 1", "dt %r" % c["dt"], "temperature 300", "samestep %d" % c["same"],
-         ("prefix %s" % tag) if auto else "prefix", "restartfreq %d" % (c["auto_state"] if auto else 0),
-         "gauss " + " ".join(hx(g) for g in c["gauss"]), "xnew", "config EOF", "scriptedColvarForces on",
+def cfg_lines(c):
+    """xnew + the configuration of the variable (and of the real biases, if any)"""
+    L = ["xnew", "config EOF", "scriptedColvarForces on",
          "colvar {", "  name v", "  timeStepFactor %d" % c["tsf"],
          "  lowerBoundary %r" % c["lower"], "  upperBoundary %r" % c["upper"], "  width %r" % c["width"],
          "  extendedLagrangian on", "  extendedFluctuation %r" % c["tol"], "  extendedTimeConstant %r" % c["tau"],
@@ -300,6 +304,19 @@ def scenario(c, tag):
     for b in c.get("biases", []):
         L += ["%s {" % b["kw"], "  colvars v"] + ["  " + x_ for x_ in b["body"]] + ["}"]
     L += ["EOF"]
+    return L
+
+
+def resumed_case(c):
+    """the configuration of the job that loads the state: the same, or legally different (c['resume_cfg'])"""
+    return dict(c, **c["resume_cfg"]) if c.get("resume_cfg") else c
+
+
+def scenario(c, tag):
+    auto = c.get("auto_state") and c.get("resume_at") is not None
+    L = ["echo CASE %s" % tag, "natoms 1", "dt %r" % c["dt"], "temperature 300", "samestep %d" % c["same"],
+         ("prefix %s" % tag) if auto else "prefix", "restartfreq %d" % (c["auto_state"] if auto else 0),
+         "gauss " + " ".join(hx(g) for g in c["gauss"])] + cfg_lines(c)
     cfg_start = L.index("xnew")
     tsf = float(c["tsf"])
     if not c.get("running", 1):
@@ -321,6 +338,8 @@ def scenario(c, tag):
             break
         if c.get("setstep_at") and j == c["setstep_at"][0]:
             L.append("setstep %d" % c["setstep_at"][1])
+        if c.get("dt_change") and j == c["dt_change"][0]:
+            L.append("dt %r" % c["dt_change"][1])
         L += ev_lines(e)
     if K is not None:
         # events 0..K-1 have been executed; event K-1 is executed again by a new object that loaded the state saved after it
@@ -336,7 +355,9 @@ def scenario(c, tag):
             L += ["echo RESUME", "load %s" % st]
         else:
             L += ["echo RESUME"]
-            L += L[cfg_start:L.index("EOF", L.index("config EOF") + 1) + 1]
+            if c.get("resume_cfg") and "dt" in c["resume_cfg"]:
+                L += ["dt %r" % c["resume_cfg"]["dt"]]
+            L += cfg_lines(resumed_case(c))
             L += ["load %s" % st]
         L += ["gauss " + " ".join(hx(g) for g in c["resume_gauss"])]
         if not c.get("running", 1):
@@ -472,7 +493,9 @@ def oracles(run, c, recs, scn, first_event=0, resumed=False):
     bigdt = c["dt"] * tsf
     aw = awake_steps(c)[first_event:]
     gu = gauss_used(c)
-    first = recs[0]
+    if resumed and not any(a_ for (j_, it_, a_), rec_ in zip(aw, recs)):
+        return                                             # the variable is not updated any more in this part
+    first = ([rec_ for (j_, it_, a_), rec_ in zip(aw, recs) if a_ and rec_ is not None] + [recs[0]])[0]
     if not (close(first["k"], k, 1e-12) and close(first["m"], m, 1e-12)):
         run.violation("params:k-m", "force constant/mass %r/%r differ from the documented kB*T/sigma^2 = %r and kB*T*(tau/(2 pi sigma))^2 = %r"
                       % (first["k"], first["m"], k, m), rep)
@@ -844,8 +867,8 @@ def compare(run, c, tag, scn, impl, mline, mout, first_event=None):
     except Exception:
         run.mismatch("model:output", {"model_case": mline}, "-", mout[:200])
         return None
-    r0 = recs[0]
-    if r0 is not None:
+    r0 = ([x_ for x_ in recs if x_ is not None and x_["awake"]] + [recs[0]])[0]
+    if r0 is not None and (not resumed or r0["awake"]):
         for nm, a, b in zip(["k", "m", "gamma", "sigma"], [r0["k"], r0["m"], r0["gamma"], r0["sigma"]], prm):
             if not close(a, b, 1e-12):
                 run.mismatch("params:" + nm, {"scenario": scn, "model_case": mline}, a, b)
@@ -864,6 +887,8 @@ def compare(run, c, tag, scn, impl, mline, mout, first_event=None):
             if fld == "energy" and c.get("biases"):
                 continue                                   # the engine's energy also contains the bias energy
             if resumed and c.get("reload") and not rec["awake"] and (fld in ("epot", "ekin", "ft") or (fld in ("x_rep", "v_rep") and math.isnan(rec["x_ext"]))):
+                continue
+            if resumed and c.get("stale_until_awake") and not rec["awake"] and fld in ("epot", "ekin", "ft", "x_rep", "v_rep"):
                 continue                                   # stale fields of the old trajectory, shown (not used) until the first update
             a, b = rec[fld], ms[fld]
             if fld == "err":
@@ -939,7 +964,7 @@ def add_resume(r, c):
     nxt = [K for K in cand if ev[K]["boundary"]]
     if nxt and r.random() < 0.4:
         cand = nxt                                           # the restart step is repeated at a run boundary
-    if not cand or c["kind"] in ("drift", "drift-twin", "realbias", "badconfig") or c.get("setstep_at"):
+    if not cand or c["kind"] in ("drift", "drift-twin", "realbias", "badconfig") or c.get("setstep_at") or c.get("dt_change"):
         return
     c["resume_at"] = r.choice(cand)
     m = r.random()
@@ -947,6 +972,18 @@ def add_resume(r, c):
     if m > 0.7 and it_k - c.get("start_step", 0) >= 1 and it_k < 2 ** 31:
         c["auto_state"] = it_k                             # colvarsRestartFrequency: the state written from within calc() at that step
         return
+    if r.random() < 0.25 and not c["per"]:
+        # the job that loads the state has other parameters for the extended coordinate (the state carries only x_ext, v_ext)
+        o_ = {}
+        if r.random() < 0.6:
+            o_["tol"] = c["tol"] * r.choice([0.5, 2.0])
+        if r.random() < 0.6:
+            o_["tau"] = c["tau"] * r.choice([0.5, 2.0, 1.5])
+        if c["damping"] != 0.0 and r.random() < 0.6:
+            o_["damping"] = c["damping"] * r.choice([0.5, 4.0])
+        if o_:
+            c["resume_cfg"] = o_
+            return
     if r.random() < 0.25:
         c["binary"] = 1                                    # unformatted state (same data through write_state(memory_stream))
     if m < 0.15:
@@ -1025,7 +1062,7 @@ def check(run):
     for i, c in enumerate(cases):
         cu = dict(c)
         cu.pop("resume_at", None)
-        jobs.append(("c%d" % i, c, scenario(cu, "c%d" % i), model_line(cu), 0))
+        jobs.append(("c%d" % i, c, scenario(cu, "c%d" % i), model_line(cu if not c.get("dt_change") else dict(cu, events=cu["events"][:c["dt_change"][0]])), 0))
     scns = [(tag, L) for (tag, c, L, ml, fe) in jobs] + \
            [("r%d" % i, scenario(c, "r%d" % i)) for i, c in enumerate(cases) if c.get("resume_at") is not None]
     impl = run_impl(sim, scns, d)
@@ -1042,7 +1079,25 @@ def check(run):
     rc, mout, e = V.run_lines(model, [ml for (tag, c, L, ml, fe) in jobs])
     allrecs = {}
     amps = {}
+    dtjobs = []
     for i, (tag, c, scn, ml, fe) in enumerate(jobs):
+        if c.get("dt_change"):
+            # part 1 (old time step) here; part 2 continues in the model from the integrated values with the new time step
+            J = c["dt_change"][0]
+            ok_, recs_ = impl.get(tag, (False, []))
+            run.dist("kind:" + c["kind"])
+            run.dist("engine time step changed in mid-session")
+            if not ok_ or len(recs_) != len(c["events"]) or any(x is None for x in recs_):
+                run.mismatch("scenario:run", {"scenario": scn}, "config_ok=%s records=%d" % (ok_, len(recs_)), "%d engine steps" % len(c["events"]))
+                run.count(tag, False)
+                continue
+            ca = dict(c, events=c["events"][:J])
+            compare(run, ca, tag, scn, {tag: (ok_, recs_[:J])}, ml, mout[i] if i < len(mout) else "")
+            oracles(run, ca, recs_[:J], scn)
+            run.count(tag, True)
+            if not any(x["err"] for x in recs_[:J]) and not math.isnan(recs_[J - 1]["x_ext"]):
+                dtjobs.append((i, tag, J, recs_))
+            continue
         recs = compare(run, c if c.get("resume_at") is None else dict(c, resume_at=None), tag, scn, impl, ml, mout[i] if i < len(mout) else "")
         run.dist("kind:" + c["kind"])
         run.dist("tsf=%d" % c["tsf"])
@@ -1064,6 +1119,18 @@ def check(run):
             amps[i] = energy_amplitude(c, recs)
         if i in (3, 4, 7):
             run.sample({"kind": c["kind"], "scenario_head": scn[:34], "first_records": [{k_: v_ for k_, v_ in x.items()} for x in recs[:3]]})
+    # -- time step changed in mid-session: from there on the integrator (kicks, drifts, damping AND noise amplitude) uses the new one
+    dlines = []
+    for (i, tag, J, recs_) in dtjobs:
+        c = cases[i]
+        c2 = dict(c, dt=c["dt_change"][1])
+        dlines.append(model_line(c2, restart=(J, awake_steps(c)[J - 1][1], recs_[J - 1]["x_ext"], recs_[J - 1]["v_ext"], c["events"][J - 1]["x"])))
+    rc, dmout, e = V.run_lines(model, dlines) if dlines else (0, [], "")
+    for n_, (i, tag, J, recs_) in enumerate(dtjobs):
+        c = cases[i]
+        c2 = dict(c, dt=c["dt_change"][1], stale_until_awake=1)
+        compare(run, c2, tag, jobs[i][2], {tag: (True, recs_[J:])}, dlines[n_], dmout[n_] if n_ < len(dmout) else "", first_event=J)
+        oracles(run, c2, recs_[J:], jobs[i][2], first_event=J, resumed=True)
     # -- second-order scaling of the energy fluctuation: halving the time step divides the amplitude by four
     for i, c in enumerate(cases):
         if c["kind"] == "drift" and i in amps and (i + 1) in amps and cases[i + 1]["kind"] == "drift-twin":
@@ -1101,7 +1168,7 @@ def check(run):
                 last_ = [j_ for j_ in range(K) if aw[j_][2]]
                 xs = c["events"][last_[-1]]["x"] if last_ else 0.0
         rinfo.append((sx, sv, xs))
-        cs = c
+        cs = resumed_case(c)
         if c.get("restart_shift"):
             # the restarted job computes the restart step from other coordinates
             cs = dict(c, events=[dict(e_) for e_ in c["events"]])
@@ -1170,7 +1237,9 @@ def check(run):
             continue
         if want_refused:
             continue
-        if not shift:
+        if c.get("resume_cfg"):
+            run.dist("resumed: by a job with other extended-Lagrangian parameters (%s)" % ",".join(sorted(c["resume_cfg"])))
+        elif not shift:
             resume_oracle(run, c, K, allrecs[i], recs2, scn)
         impl_r = {tag: (ok2, recs2)}
         compare(run, cs, tag, scn, impl_r, rlines[n_], rmout[n_] if n_ < len(rmout) else "", first_event=K - 1)
